@@ -35,6 +35,15 @@ type Container struct {
 	Name string
 	Sym  *sym.Term
 	Rank int // 1 vector, 2 matrix
+	// DimSym: the container whose extents this one has (a private copy has the extents of its source); nil = Sym
+	DimSym *sym.Term
+}
+
+func (c *Container) dimSym() *sym.Term {
+	if c.DimSym != nil {
+		return c.DimSym
+	}
+	return c.Sym
 }
 
 // Closure is a function literal with its defining environment.
@@ -1694,9 +1703,9 @@ func (it *Interp) containerMethod(c *Container, name string, call *ast.CallExpr)
 	it.curPos = call.Pos()
 	switch name {
 	case "Dim":
-		return sym.Fn("dim", c.Sym)
+		return sym.Fn("dim", c.dimSym())
 	case "Dims":
-		return Tuple{sym.Fn("rows", c.Sym), sym.Fn("cols", c.Sym)}
+		return Tuple{sym.Fn("rows", c.dimSym()), sym.Fn("cols", c.dimSym())}
 	case "ConstAt", "At", "AT", "MagicAt", "ValueAt", "Float64At", "Float32At":
 		var idx []*sym.Term
 		for _, a := range call.Args {
@@ -1711,6 +1720,10 @@ func (it *Interp) containerMethod(c *Container, name string, call *ast.CallExpr)
 		return sym.Sym("elemtype")
 	case "storageLocation":
 		return sym.Fn("storage", c.Sym)
+	}
+	if strings.HasPrefix(name, "Clone") && len(call.Args) == 0 {
+		// a private copy: same elements, another storage
+		return &Container{Name: "clone(" + c.Name + ")", Sym: sym.Fn("clone", c.Sym), Rank: c.Rank, DimSym: c.dimSym()}
 	}
 	it.undecided(call.Pos(), "container method %s", name)
 	return nil
